@@ -22,8 +22,11 @@ impl ReplayProtection {
     }
 
     pub fn already_received(&self, sequence: u64) -> bool {
-        if sequence + NETCODE_REPLAY_BUFFER_SIZE as u64 <= self.most_recent_sequence {
-            return true;
+        // Sequences so close to u64::MAX that the addition overflows cannot be behind the window
+        if let Some(window_end) = sequence.checked_add(NETCODE_REPLAY_BUFFER_SIZE as u64) {
+            if window_end <= self.most_recent_sequence {
+                return true;
+            }
         }
 
         let index = sequence as usize % NETCODE_REPLAY_BUFFER_SIZE;
